@@ -19,6 +19,22 @@ extern "C" __attribute__((used)) const char *__asan_default_options() {
 }
 extern "C" __attribute__((used)) const char *__ubsan_default_options() { return "halt_on_error=1:exitcode=77:print_stacktrace=1"; }
 
+#if defined(__has_feature)
+#if __has_feature(address_sanitizer)
+#define JLSSIM_HAVE_ASAN 1
+#include <sanitizer/common_interface_defs.h>
+// -fsanitize=bounds (local-bounds) reports by trapping: turn the SIGILL into a report that reads like the others
+static void on_trap(int, siginfo_t *si, void *) {
+    static char where[512];
+    __sanitizer_symbolize_pc(si->si_addr, "%f %s:%l", where, sizeof where);
+    fprintf(stderr, "==%d==ERROR: AddressSanitizer: bounds-trap (out-of-bounds access caught by -fsanitize=bounds) at pc %p\n    #0 %p in %s\n", (int) getpid(), si->si_addr, si->si_addr, where);
+    __sanitizer_print_stack_trace();
+    fprintf(stderr, "SUMMARY: AddressSanitizer: bounds-trap %s\n", where);
+    _exit(77);
+}
+#endif
+#endif
+
 static std::string json_escape(const std::string &s) {
     std::string o;
     for (unsigned char c : s) {
@@ -69,6 +85,9 @@ static const char *arg_val(int argc, char **argv, const char *name, const char *
 
 int main(int argc, char **argv) {
     setvbuf(stdout, nullptr, _IOLBF, 0);
+#ifdef JLSSIM_HAVE_ASAN
+    { struct sigaction sa; memset(&sa, 0, sizeof sa); sa.sa_sigaction = on_trap; sa.sa_flags = SA_SIGINFO | SA_NODEFER; sigaction(SIGILL, &sa, nullptr); }
+#endif
     if (argc < 2) { fprintf(stderr, "usage: jlssim run|gen|replay|shrink ...\n"); return 2; }
     std::string cmd = argv[1];
     int tier = !strcmp(arg_val(argc, argv, "--tier", "quick"), "thorough") ? 1 : 0;
